@@ -215,6 +215,20 @@ impl Kernel for World {
         self.resps.push(format!("t:{}", self.now));
         Ans::Ret(self.now)
     }
+    /// a wait on no descriptors is a nap with millisecond resolution (`poll(&[], ms)`): virtual time, like `sleep`
+    fn poll(&mut self, fds: &mut [libc::pollfd], timeout_ms: c_int) -> Ans<c_int> {
+        if !fds.is_empty() {
+            return Ans::Pass;
+        }
+        if timeout_ms < 0 {
+            // would never return: let the library see a failure instead of hanging the harness
+            self.calls.push("poll:-1".into());
+            self.resps.push("err:4".into());
+            return Ans::Err(libc::EINTR);
+        }
+        let _ = self.sleep(timeout_ms as u64 * 1_000_000);
+        Ans::Ret(0)
+    }
     fn sleep(&mut self, ns: u64) -> Ans<()> {
         self.calls.push(format!("sleep:{}", ns));
         self.sleeps.push(ns);
@@ -468,7 +482,9 @@ fn run_case(c: &Case) -> CaseResult {
                     // the first report must be what the kernel said
                     let last_resp = w.resps.last().cloned().unwrap_or_default();
                     let via_echild = w.resps[..].iter().rev().take(new_calls.len()).any(|r| r == "err:10");
-                    let expect = if via_echild { "st:U".to_string() } else { expect_status(w.word) };
+                    // ECHILD excuses "Undetermined" only if somebody ELSE collected the status: when an earlier waitpid of the
+                    // library itself was answered with the pid (w.reaped), the truth was in its hands
+                    let expect = if via_echild && !w.reaped { "st:U".to_string() } else { expect_status(w.word) };
                     if known_before.is_none() {
                         if was_running_world && !w.exited() && !w.gone() {
                             oracle.push(("C09".into(), format!("{} reported {} while the child is still running", op.show(), st)));
@@ -503,7 +519,7 @@ fn run_case(c: &Case) -> CaseResult {
             // C09: reaped by someone else => Undetermined, not an error
             if matches!(op, Op::Poll | Op::Wait | Op::WaitTimeout(_)) && known_before.is_none() {
                 let saw_echild = w.resps.iter().rev().take(new_calls.len()).any(|r| r == "err:10");
-                if saw_echild && reported.as_deref() != Some("st:U") {
+                if saw_echild && !w.reaped && reported.as_deref() != Some("st:U") {
                     oracle.push(("C09".into(), format!("{} returned {} although waitpid said ECHILD (expected Undetermined)", op.show(), ret)));
                 }
             }
